@@ -3,19 +3,27 @@
 //! case:  mode kind [content] pos (opcode [arg])*
 //!   kind 0 &[u8]  1 &mut [u8]  2 Vec<u8>  3 Cursor<&[u8]>  4 Cursor<&mut [u8]>  5 File  6 UnixStream
 //!        7 pipe (OwnedFd / File twin)  8 Cursor<Vec<u8>>
+//!        9..12 MESSAGE QUEUE: non-blocking AF_UNIX socketpair, every read(2) delivers (at most) one message, so
+//!        an exact read is served in PIECES, deterministically (no timing): 9 SOCK_SEQPACKET as OwnedFd,
+//!        10 SOCK_DGRAM as UnixStream, 11 SOCK_SEQPACKET as File and 12 SOCK_DGRAM as BorrowedFd, the last two
+//!        driven through VolatileSlice::{read_volatile_from, read_exact_volatile_from, write_volatile_to,
+//!        write_all_volatile_to}; twin: std::fs::File (read(2) / write(2)) on a second socketpair.
+//!        [content] and [out] of a message queue: every message followed by the marker 0x100.
 //!   opcode 0 read [prefill]  1 read_exact [prefill]  2 write [data]  3 write_all [data]  4 set_position [p]
 //! obs per op (13 tokens): adapter rk n [buf] margins_ok [data] pos [out]; twin rk n [buf] [data] pos [out]
 //!   rk 0 Ok(n) 1 Ok(()) 2 UnexpectedEof 3 WriteZero 4 Interrupted 5 other io 6 bounds 7 skipped 8 panic 9 pos set
 //! The buffer lives in an arena with 8 canary bytes on each side; the stream state is observed through
-//! the backing array / a second descriptor / FIONREAD, never through the adapter.
+//! the backing array / a second descriptor / FIONREAD, never through the adapter; a message queue is observed
+//! by receiving every queued message with recv(2) and sending them again through the peer.
 use crate::tok::n;
 use crate::{util, Rng, Suite, Tier, Tok};
 use std::fs::File;
 use std::io::{Cursor, ErrorKind, Read, Seek, SeekFrom, Write};
-use std::os::fd::{AsRawFd, FromRawFd, OwnedFd};
+use std::mem::ManuallyDrop;
+use std::os::fd::{AsFd, AsRawFd, FromRawFd, OwnedFd};
 use std::os::unix::net::UnixStream;
 use std::sync::atomic::{AtomicU64, Ordering};
-use vm_memory::{ReadVolatile, VolatileMemoryError, VolatileSlice, WriteVolatile};
+use vm_memory::{Bytes, ReadVolatile, VolatileMemoryError, VolatileSlice, WriteVolatile};
 
 pub const SUITES: &[Suite] = &[Suite { name: "C13", gen, exec }];
 
@@ -119,7 +127,57 @@ fn make_pipe() -> (OwnedFd, OwnedFd) {
     unsafe { (OwnedFd::from_raw_fd(fds[0]), OwnedFd::from_raw_fd(fds[1])) }
 }
 
+const MSG_END: u128 = 0x100;
+fn msg_pair(kind: u64) -> (OwnedFd, OwnedFd) {
+    let ty = if kind == 9 || kind == 11 { libc::SOCK_SEQPACKET } else { libc::SOCK_DGRAM };
+    let mut fds = [0i32; 2];
+    assert_eq!(unsafe { libc::socketpair(libc::AF_UNIX, ty | libc::SOCK_NONBLOCK | libc::SOCK_CLOEXEC, 0, fds.as_mut_ptr()) }, 0);
+    unsafe { (OwnedFd::from_raw_fd(fds[0]), OwnedFd::from_raw_fd(fds[1])) }
+}
+fn send_msg(fd: i32, m: &[u8]) {
+    let r = unsafe { libc::send(fd, m.as_ptr() as *const libc::c_void, m.len(), 0) };
+    assert_eq!(r, m.len() as isize, "send on the message queue");
+}
+/// every queued message, in order (the queue is empty afterwards)
+fn recv_all(fd: i32) -> Vec<Vec<u8>> {
+    let mut out = Vec::new();
+    let mut b = [0u8; 4096];
+    loop {
+        let r = unsafe { libc::recv(fd, b.as_mut_ptr() as *mut libc::c_void, b.len(), libc::MSG_DONTWAIT) };
+        if r < 0 {
+            break;
+        }
+        out.push(b[..r as usize].to_vec());
+    }
+    out
+}
+fn enc_msgs(ms: &[Vec<u8>]) -> Tok {
+    let mut l: Vec<u128> = Vec::new();
+    for m in ms {
+        l.extend(m.iter().map(|x| *x as u128));
+        l.push(MSG_END);
+    }
+    Tok::L(l)
+}
+fn dec_msgs(l: &[u128]) -> Vec<Vec<u8>> {
+    if l.iter().any(|x| *x > MSG_END) || (!l.is_empty() && *l.last().unwrap() != MSG_END) {
+        panic!("bad message queue contents");
+    }
+    let mut out = Vec::new();
+    let mut cur = Vec::new();
+    for x in l {
+        if *x == MSG_END {
+            out.push(std::mem::take(&mut cur));
+        } else {
+            cur.push(*x as u8);
+        }
+    }
+    out
+}
+
 enum Stream {
+    /// message queue: `a` is the end under test, `b` the peer (stays open)
+    Msg { a: OwnedFd, b: OwnedFd, kind: u64 },
     SliceR { back: Backing, cur: &'static [u8] },
     SliceW { back: Backing, cur: &'static mut [u8] },
     VecW { v: Vec<u8>, pos0: u64 },
@@ -143,6 +201,14 @@ fn tmp_dir() -> std::path::PathBuf {
 }
 
 impl Stream {
+    fn new_msg(kind: u64, content: &[u128]) -> Stream {
+        let (a, b) = msg_pair(kind);
+        for m in dec_msgs(content) {
+            send_msg(b.as_raw_fd(), &m);
+        }
+        Stream::Msg { a, b, kind }
+    }
+
     fn new(kind: u64, content: &[u8], pos: u64, vm: bool) -> Stream {
         match kind {
             0 => {
@@ -206,8 +272,23 @@ impl Stream {
     }
 
     /// (data, pos, out) observed independently of the adapter
-    fn observe(&mut self) -> (Vec<u8>, u64, Vec<u8>) {
+    fn observe(&mut self) -> (Tok, u64, Tok) {
+        if let Stream::Msg { a, b, .. } = self {
+            // what the adapter sent, then what is still queued for it (sent again in the same order)
+            let out = recv_all(b.as_raw_fd());
+            let queued = recv_all(a.as_raw_fd());
+            for m in &queued {
+                send_msg(b.as_raw_fd(), m);
+            }
+            return (enc_msgs(&queued), 0, enc_msgs(&out));
+        }
+        let (d, p, o) = self.observe_bytes();
+        (Tok::of_bytes(&d), p, Tok::of_bytes(&o))
+    }
+
+    fn observe_bytes(&mut self) -> (Vec<u8>, u64, Vec<u8>) {
         match self {
+            Stream::Msg { .. } => unreachable!(),
             Stream::SliceR { back, cur } => {
                 let off = (cur.as_ptr() as usize).wrapping_sub(back.ptr as usize);
                 let pos = if off <= back.len && cur.len() == back.len - off { off as u64 } else { 0xdead_0000 + cur.len() as u64 };
@@ -285,6 +366,48 @@ impl Stream {
                     sn(rd.read(b))
                 }
             }
+            Stream::Msg { a, kind, .. } => {
+                let fd = a.as_raw_fd();
+                let b = &mut arena[MARGIN..MARGIN + len];
+                // wrappers around the same descriptor; never closed through the wrapper
+                let mut file = ManuallyDrop::new(unsafe { File::from_raw_fd(fd) });
+                if !vm {
+                    return if exact { su(file.read_exact(b)) } else { sn(file.read(b)) };
+                }
+                let mut vs = VolatileSlice::from(b);
+                match *kind {
+                    9 => {
+                        if exact {
+                            vu(a.read_exact_volatile(&mut vs))
+                        } else {
+                            vn(a.read_volatile(&mut vs))
+                        }
+                    }
+                    10 => {
+                        let mut u = ManuallyDrop::new(unsafe { UnixStream::from_raw_fd(fd) });
+                        if exact {
+                            vu(u.read_exact_volatile(&mut vs))
+                        } else {
+                            vn(u.read_volatile(&mut vs))
+                        }
+                    }
+                    11 => {
+                        if exact {
+                            vu(vs.read_exact_volatile_from(0, &mut *file, len))
+                        } else {
+                            vn(vs.read_volatile_from(0, &mut *file, len))
+                        }
+                    }
+                    _ => {
+                        let mut bf = a.as_fd();
+                        if exact {
+                            vu(vs.read_exact_volatile_from(0, &mut bf, len))
+                        } else {
+                            vn(vs.read_volatile_from(0, &mut bf, len))
+                        }
+                    }
+                }
+            }
             _ => panic!("read on a writer"),
         }
     }
@@ -330,6 +453,47 @@ impl Stream {
                     sn(wr.write(b))
                 }
             }
+            Stream::Msg { a, kind, .. } => {
+                let fd = a.as_raw_fd();
+                let b = &mut arena[MARGIN..MARGIN + len];
+                let mut file = ManuallyDrop::new(unsafe { File::from_raw_fd(fd) });
+                if !vm {
+                    return if all { su(file.write_all(b)) } else { sn(file.write(b)) };
+                }
+                let vs = VolatileSlice::from(b);
+                match *kind {
+                    9 => {
+                        if all {
+                            vu(a.write_all_volatile(&vs))
+                        } else {
+                            vn(a.write_volatile(&vs))
+                        }
+                    }
+                    10 => {
+                        let mut u = ManuallyDrop::new(unsafe { UnixStream::from_raw_fd(fd) });
+                        if all {
+                            vu(u.write_all_volatile(&vs))
+                        } else {
+                            vn(u.write_volatile(&vs))
+                        }
+                    }
+                    11 => {
+                        if all {
+                            vu(vs.write_all_volatile_to(0, &mut *file, len))
+                        } else {
+                            vn(vs.write_volatile_to(0, &mut *file, len))
+                        }
+                    }
+                    _ => {
+                        let mut bf = a.as_fd();
+                        if all {
+                            vu(vs.write_all_volatile_to(0, &mut bf, len))
+                        } else {
+                            vn(vs.write_volatile_to(0, &mut bf, len))
+                        }
+                    }
+                }
+            }
             _ => panic!("write on a reader"),
         }
     }
@@ -368,7 +532,8 @@ fn step(s: &mut Stream, vm: bool, opc: u64, arg: &Tok) -> ((u64, u64), Vec<u8>, 
 
 fn exec(case: &[Tok]) -> Vec<Tok> {
     let kind = case[1].u();
-    let content = case[2].bytes();
+    let msgq = (9..=12).contains(&kind);
+    let content = if msgq { vec![] } else { case[2].bytes() };
     let pos = case[3].u();
     assert!((case.len() - 4) % 2 == 0);
     if (kind == 0 || kind == 1) && pos > content.len() as u64 {
@@ -378,14 +543,17 @@ fn exec(case: &[Tok]) -> Vec<Tok> {
     if kind == 5 && (pos > 65536 || case[4..].chunks(2).any(|op| op[0].u() == 4 && op[1].l()[0] > 65536)) {
         panic!("file offset out of the supported range");
     }
-    let mut a = Stream::new(kind, &content, pos, true);
-    let mut t = Some(Stream::new(kind, &content, pos, false));
+    if msgq && pos != 0 {
+        panic!("a message queue has no position");
+    }
+    let mut a = if msgq { Stream::new_msg(kind, case[2].l()) } else { Stream::new(kind, &content, pos, true) };
+    let mut t = Some(if msgq { Stream::new_msg(kind, case[2].l()) } else { Stream::new(kind, &content, pos, false) });
     let mut out = Vec::new();
     for op in case[4..].chunks(2) {
         let opc = op[0].u();
         let (rc, buf, ok) = step(&mut a, true, opc, &op[1]);
         let (d, p, o) = a.observe();
-        out.extend([n(rc.0), n(rc.1), Tok::of_bytes(&buf), Tok::b(ok), Tok::of_bytes(&d), n(p), Tok::of_bytes(&o)]);
+        out.extend([n(rc.0), n(rc.1), Tok::of_bytes(&buf), Tok::b(ok), d, n(p), o]);
         match t.as_mut() {
             None => out.extend([n(7u8), n(0u8), Tok::L(vec![]), Tok::L(vec![]), n(0u8), Tok::L(vec![])]),
             Some(tw) => {
@@ -393,7 +561,7 @@ fn exec(case: &[Tok]) -> Vec<Tok> {
                 if rc.0 == 0 || rc.0 == 1 || rc.0 == 9 {
                     let (d, p, o) = tw.observe();
                     let tb = if opc <= 1 { buf } else { vec![] };
-                    out.extend([n(rc.0), n(rc.1), Tok::of_bytes(&tb), Tok::of_bytes(&d), n(p), Tok::of_bytes(&o)]);
+                    out.extend([n(rc.0), n(rc.1), Tok::of_bytes(&tb), d, n(p), o]);
                 } else {
                     // std leaves the stream (and the buffer) unspecified after a failed exact transfer
                     out.extend([n(rc.0), n(rc.1), Tok::L(vec![]), Tok::L(vec![]), n(0u8), Tok::L(vec![])]);
@@ -417,14 +585,19 @@ fn pattern(rng: &mut Rng, len: usize) -> Vec<u8> {
 fn gen(rng: &mut Rng, tier: Tier, emit: &mut dyn FnMut(Vec<Tok>)) {
     let mode = crate::build_mode();
     let quick = tier == Tier::Quick;
-    let mut case = |kind: u64, content: &[u8], pos: u64, ops: &[(u64, Tok)]| {
-        let mut v = vec![n(mode), n(kind), Tok::of_bytes(content), n(pos)];
+    let mut raw = |kind: u64, content: Tok, pos: u64, ops: &[(u64, Tok)]| {
+        let mut v = vec![n(mode), n(kind), content, n(pos)];
         for (c, a) in ops {
             v.push(n(*c));
             v.push(a.clone());
         }
         emit(v)
     };
+    macro_rules! case {
+        ($k:expr, $c:expr, $p:expr, $o:expr) => {
+            raw($k, Tok::of_bytes($c), $p, $o)
+        };
+    }
     // 1. single calls, exhaustively: stream length 0..20 x position 0..25 and u64::MAX x buffer length 0..20
     let mut i = 0u64;
     for kind in [0u64, 1, 2, 3, 8, 4, 5, 6, 7] {
@@ -453,7 +626,7 @@ fn gen(rng: &mut Rng, tier: Tier, emit: &mut dyn FnMut(Vec<Tok>)) {
                         }
                         let content = pattern(rng, slen);
                         let buf = pattern(rng, blen);
-                        case(kind, &content, pos, &[(opc, Tok::of_bytes(&buf))]);
+                        case!(kind, &content, pos, &[(opc, Tok::of_bytes(&buf))]);
                     }
                 }
             }
@@ -467,11 +640,81 @@ fn gen(rng: &mut Rng, tier: Tier, emit: &mut dyn FnMut(Vec<Tok>)) {
                     for opc in if kind == 0 { [0u64, 1] } else { [2, 3] } {
                         let content = pattern(rng, slen);
                         let buf = pattern(rng, blen);
-                        case(kind, &content, pos as u64, &[(opc, Tok::of_bytes(&buf))]);
+                        case!(kind, &content, pos as u64, &[(opc, Tok::of_bytes(&buf))]);
                     }
                 }
             }
         }
+    }
+    // 1b. message queues: every queue of up to 3 messages with lengths in {0,1,2,3,5,8} x buffer length 0..12 x
+    // read / read_exact (the exact read has to assemble its buffer from several messages), and the writers
+    let lens = [0usize, 1, 2, 3, 5, 8];
+    let mut queues: Vec<Vec<usize>> = vec![vec![]];
+    for &a in &lens {
+        queues.push(vec![a]);
+        for &b in &lens {
+            queues.push(vec![a, b]);
+            for &c in &lens {
+                queues.push(vec![a, b, c]);
+            }
+        }
+    }
+    let msgs = |rng: &mut Rng, q: &[usize]| -> Tok {
+        let mut l: Vec<u128> = Vec::new();
+        let mut v = rng.below(100) as u8;
+        for &k in q {
+            for _ in 0..k {
+                v = v.wrapping_add(1);
+                l.push(v as u128);
+            }
+            l.push(MSG_END);
+        }
+        Tok::L(l)
+    };
+    let mut j = 0u64;
+    for kind in 9..=12u64 {
+        for q in &queues {
+            for blen in 0..=12usize {
+                for opc in [0u64, 1] {
+                    j += 1;
+                    if quick && j % 4 != 0 {
+                        continue;
+                    }
+                    let content = msgs(rng, q);
+                    // a second exact read shows where the first one left the queue
+                    raw(kind, content, 0, &[(opc, Tok::of_bytes(&vec![0xAA; blen])), (1, Tok::of_bytes(&[0xBB, 0xBB]))]);
+                }
+            }
+        }
+        for blen in 0..=12usize {
+            for opc in [2u64, 3] {
+                let content = msgs(rng, &[2, 1]);
+                let buf = pattern(rng, blen);
+                raw(kind, content, 0, &[(opc, Tok::of_bytes(&buf)), (opc, Tok::of_bytes(&buf[..blen / 2]))]);
+            }
+        }
+    }
+    // random histories on message queues
+    let nmsg = if quick { 4_000 } else { 100_000 };
+    for _ in 0..nmsg {
+        let kind = rng.range(9, 12);
+        let nq = rng.below(7) as usize;
+        let q: Vec<usize> = (0..nq).map(|_| if rng.chance(1, 8) { 0 } else { rng.range(1, 8) as usize }).collect();
+        let total: usize = q.iter().sum();
+        let content = msgs(rng, &q);
+        let nops = rng.range(1, 5);
+        let mut ops = Vec::new();
+        for _ in 0..nops {
+            let blen = match rng.below(5) {
+                0 => 0,
+                1 => total.min(20),
+                2 => (total / 2).min(20),
+                _ => rng.below(21) as usize,
+            };
+            let opc = if rng.chance(1, 4) { 2 + rng.below(2) } else { rng.below(4).min(1) };
+            ops.push((opc, Tok::of_bytes(&rng.bytes(blen))));
+        }
+        raw(kind, content, 0, &ops);
     }
     // 2. histories of up to 5 consecutive calls on one stream
     let nhist = if quick { 12_000 } else { 400_000 };
@@ -523,6 +766,6 @@ fn gen(rng: &mut Rng, tier: Tier, emit: &mut dyn FnMut(Vec<Tok>)) {
             let opc = if wr { 2 + rng.below(2) } else { rng.below(2) };
             ops.push((opc, Tok::of_bytes(&rng.bytes(blen))));
         }
-        case(kind, &content, pos, &ops);
+        case!(kind, &content, pos, &ops);
     }
 }
